@@ -104,6 +104,28 @@ package bus
 //@   modifies o.signal, o.objectID, o.terminate
 //@   ensures[C16] err == nil && o.objectID == activation.ObjectID && o.terminate == activation.Terminate
 
+// Client-side service reference (objects created on the client side of a connection): identifiers
+// are handed out under nextIDMutex, the handler table is touched only under objectsMutex.
+//@ immutable clientService.context
+//@ guarded_by (c *clientService) c.nextIDMutex: c.nextID
+//@ guarded_by (c *clientService) c.objectsMutex: c.objectsHandlers, c.objectsHandlers[*]
+//@   monitor c.objectsHandlers != nil
+//@ interface (a Actor) Activate(activation Activation) (err error)
+//@   trusted
+//@   modifies everything
+//@ func (c *clientService) Add(obj Actor) (id uint32, err error)
+//@   tags C16
+//@   requires obj != nil && c.context != nil && !c.nextIDMutex.lockw && !c.objectsMutex.lockw && c.objectsMutex.lockr == 0
+//@   modifies everything
+//@   ensures[C16] !c.nextIDMutex.lockw && !c.objectsMutex.lockw && c.objectsMutex.lockr == 0
+//@   ensures[C16] err == nil ==> id >= 2147483648
+//@ func (c *clientService) Remove(objectID uint32) (err error)
+//@   tags C16
+//@   requires c.context != nil && !c.objectsMutex.lockw && c.objectsMutex.lockr == 0
+//@   modifies everything
+//@   ensures[C16] !c.objectsMutex.lockw && c.objectsMutex.lockr == 0
+//@   ensures[C16] err == nil ==> at_lock(has(c.objectsHandlers, objectID)) && !at_unlock(has(c.objectsHandlers, objectID))
+
 // Add: the new identifier is free at the moment it is reserved (for a service whose first object
 // has id 1, which is how every service is created), and a failed activation leaves nothing behind.
 //@ func (s *serviceImpl) Add(obj Actor) (index uint32, err error)
